@@ -2143,6 +2143,11 @@ class SymExec(object):
         lit = _literal_seq(t)
         if lit is not None:
             return lit
+        # a display of a few displays written in the loop header -- for a, b in ((x, y), (y, x)): -- whose members are
+        # plain values (no calls): the rounds it spells out
+        if isinstance(s.iter, (ast.Tuple, ast.List)) and 0 < len(s.iter.elts) <= 4 and all(isinstance(e, (ast.Tuple, ast.List)) for e in s.iter.elts) \
+                and not any(isinstance(n, (ast.Call, ast.Starred, ast.Yield, ast.Await, ast.NamedExpr)) for n in ast.walk(s.iter)) and t[0] in ('tuple', 'list'):
+            return list(t[1])
         if t[0] == 'call' and t[1][0] == 'name' and t[1][1] in ('zip', 'reversed', 'enumerate', 'range') or (t[0] == 'const' and isinstance(t[1], str)):
             return self.iter_items(t, probe)
         return None
